@@ -677,7 +677,8 @@ theorem gen_map_equal (h : Nat → Nat) (t o : PTable) :
   by_cases hs : t.size = o.size
   · simp only [hs, if_true, ne_eq, not_true_eq_false, if_false]
     rw [← hs]; exact gen_map_equal_loop h t o _ _ _
-  · simp [hs]
+  · have hs' : ¬ o.size = t.size := fun e => hs e.symm
+    simp [hs, hs']
 theorem gen_set_assign_loop (h : Nat → Nat) (o : PTable) (fuel : Nat) : ∀ (t : PTable) (i : Nxt),
     HashLink.HashSet.assign_loop1 h fuel t o i (.stl o.self) = PTable.appendLoop Kind.set h o.self o.items fuel i t := by
   induction fuel with
@@ -744,7 +745,8 @@ theorem gen_set_equal (h : Nat → Nat) (t o : PTable) :
   by_cases hs : t.size = o.size
   · simp only [hs, if_true, ne_eq, not_true_eq_false, if_false]
     rw [← hs]; exact gen_set_equal_loop h t o _ _ _
-  · simp [hs]
+  · have hs' : ¬ o.size = t.size := fun e => hs e.symm
+    simp [hs, hs']
 theorem gen_set_appendAll_loop (h : Nat → Nat) (o : PTable) (fuel : Nat) : ∀ (t : PTable) (i : Nxt),
     HashLink.HashSet.appendAll_loop1 h fuel t o i (.stl o.self) = PTable.appendLoop Kind.set h o.self o.items fuel i t := by
   induction fuel with
